@@ -119,6 +119,43 @@ def check(ctx: Ctx) -> None:
             if ttm_all.shape != (1, Tn) or not bool(((ttm_all - exp).abs() <= tol).all()) or not bool(((d_r.time_to_maturity(0) - exp[0]).abs() <= tol).all()):
                 ctx.violation("grid:ttm-reused-object", "time_to_maturity on a re-simulated derivative does not follow the underlier's current dt",
                               {"dt": r["dt"], "T": Tn, "observed_first": ttm_all.flatten()[0].item(), "expected_first": exp[0].item()})
+        # a user-defined derivative on TWO underliers with different step sizes: every underlier gets ceil(M/dt_j)+1 points
+        if n % 5 == 0 and T <= 60:
+            from pfhedge.instruments import BaseDerivative
+            dt2_q = fr(recs[(n * 7 + 3) % len(recs)]["dt"])
+            dt2_f = dt2_q.numerator / dt2_q.denominator
+
+            class TwoUnderliers(BaseDerivative):
+                def __init__(self, a, b, maturity):
+                    super().__init__()
+                    self.register_underlier("first", a)
+                    self.register_underlier("second", b)
+                    self.maturity = maturity
+
+                def payoff_fn(self):
+                    return self.ul(0).spot[..., -1] - self.ul(1).spot[..., -1]
+            sa, sb = BrownianStock(dt=dt_f), BrownianStock(dt=dt2_f)
+            two = TwoUnderliers(sa, sb, float(M_q))
+            two.simulate(n_paths=1)
+            import math
+            T2 = math.ceil(M_q / dt2_q) + 1
+            ctx.count(n=1)
+            if sa.spot.size(1) != T or sb.spot.size(1) != T2:
+                ctx.violation("grid:steps:second-underlier", f"derivative on two underliers (dt {r['dt']} and {dt2_q}): simulated {sa.spot.size(1)} and {sb.spot.size(1)} time points, ceil(M/dt)+1 = {T} and {T2}",
+                              {"dt": r["dt"], "dt2": [dt2_q.numerator, dt2_q.denominator], "k": k, "f": r["f"]})
+        # the underlier of an existing derivative replaced by assignment (a primary simulated earlier over another horizon)
+        if n % 9 == 0 and T <= 60:
+            other = BrownianStock(dt=dt_f, dtype=torch.float64)
+            other.simulate(n_paths=1, time_horizon=float(M_q) * 3 + dt_f)
+            dd = EuropeanOption(BrownianStock(dt=dt_f, dtype=torch.float64), maturity=float(M_q))
+            dd.simulate(n_paths=1)
+            dd.underlier = other
+            dd.simulate(n_paths=1)
+            ctx.count(n=1)
+            ok = dd.ul() is other and other.spot.size(1) == T and tuple(dd.time_to_maturity().shape) == (1, T) and tuple(dd.moneyness().shape) == (1, T)
+            if not ok:
+                ctx.violation("grid:replaced-underlier", "after assigning a new underlier, simulate()/time_to_maturity()/moneyness() do not use one common grid of the new underlier",
+                              {"dt": r["dt"], "T": T, "ul_is_new": dd.ul() is other, "new_spot_T": other.spot.size(1), "ttm_shape": list(dd.time_to_maturity().shape)})
         # forward-start index: start = (k + f) dt  ->  floor(start / dt) = k
         for sname, s_f in spellings.items():
             fs = EuropeanForwardStartOption(BrownianStock(dt=dt_f), maturity=2 * s_f + dt_f, start=s_f)
